@@ -43,10 +43,11 @@ def hooks():
 
 
 class Stack:
-    def __init__(self, prog, extra_hooks=None):
+    def __init__(self, prog, extra_hooks=None, mac_axiom=False):
         self.prog = prog
         self.runs = 0
         self.extra_hooks = extra_hooks
+        self.mac_axiom = mac_axiom
 
     def run(self, module, src, args):
         ex = Exec(self.prog, policy=pol)
@@ -54,6 +55,7 @@ class Stack:
         if self.extra_hooks:
             ex.summaries.update(self.extra_hooks() if callable(self.extra_hooks) else self.extra_hooks)
         ex.sym_bytes = True
+        ex.mac_axiom = self.mac_axiom
         self.runs += 1
         try:
             res = ex.run_driver(self.prog.module(module), src, args=args)
